@@ -45,7 +45,8 @@ PROPS["C08"] = {
             "quick": {"gen": [{"module": "HealthBreakerGen", "cfg": "HealthBreaker_gen2.cfg", "params": {"ReachLen": 7, "SufLen": 2}},
                               {"module": "HealthBreaker", "cfg": "HealthBreaker_gen.cfg", "params": {"MaxLen": 4}}]},
             "thorough": {"gen": [{"module": "HealthBreakerGen", "cfg": "HealthBreaker_gen2.cfg", "params": {"ReachLen": 9, "SufLen": 4}},
-                                 {"module": "HealthBreaker", "cfg": "HealthBreaker_gen.cfg", "params": {"MaxLen": 6}}]},
+                                 {"module": "HealthBreaker", "cfg": "HealthBreaker_gen.cfg", "params": {"MaxLen": 6}}],
+                         "sample": 250000},
             "pkg": "internal/adapter/health", "test": "TestVerif_HealthBreaker", "harness_files": ["breaker_test.go"],
             "trace": {"module": "HealthBreakerTrace", "cfg": "HealthBreaker_trace.cfg"},
             "nontrivial": breaker_nontrivial,
@@ -70,7 +71,7 @@ PROPS["C08"] = {
                 {"module": "UnifierBreakerConc", "cfg": "UnifierBreakerConc_mc.cfg"},
             ],
             "quick": {"gen": [{"module": "UnifierBreakerGen", "cfg": "UnifierBreaker_gen.cfg", "params": {"ReachLen": 10, "SufLen": 3, "Races": "{2, 5}"}}]},
-            "thorough": {"gen": [{"module": "UnifierBreakerGen", "cfg": "UnifierBreaker_gen.cfg", "params": {"ReachLen": 12, "SufLen": 5, "Races": "{2, 4, 5}"}}]},
+            "thorough": {"gen": [{"module": "UnifierBreakerGen", "cfg": "UnifierBreaker_gen.cfg", "params": {"ReachLen": 11, "SufLen": 4, "Races": "{2, 5}"}}]},
             "pkg": "internal/adapter/unifier", "test": "TestVerif_UnifierBreaker",
             "trace": {"module": "UnifierBreakerTrace", "cfg": "UnifierBreaker_trace.cfg"},
             "nontrivial": breaker_nontrivial,
